@@ -37,9 +37,10 @@ type CallLedger struct {
 	AmtArg  int
 	AmtRes  int
 	SignArg int
-	// KeyArg optionally names the argument that identifies the ledger instance (denom,
-	// address); only reported.
-	Note string
+	Note    string
+	// Filter optionally restricts the entry to calls satisfying a predicate (e.g. the denom
+	// argument has share-denom provenance).
+	Filter func(P *core.Program, ff *core.FuncFacts, c ssa.CallInstruction) bool
 }
 
 type LedgerSpec struct {
@@ -66,6 +67,9 @@ type LedgerSpec struct {
 	// estimation / display; accepted only if they cannot reach any of NoPersist.
 	Scratch   map[string]string
 	NoPersist []string
+	// HelperEffects: declared net effect of a helper (what its callers account for through
+	// Calls entries); verified against the helper's own body.
+	HelperEffects map[string][]HelperEffect
 	// SubHelpers: frozen functions f(old, amount) that return old ± amount (saturating
 	// forms); `x.F = f(x.F, v)` then counts as a delta of that sign.
 	SubHelpers map[string]int
@@ -75,6 +79,13 @@ type LedgerSpec struct {
 	OnlyFuncs []string
 	// Extra lets a property add deltas the generic extractors cannot see.
 	Extra func(P *core.Program, ff *core.FuncFacts, fn *ssa.Function) []Delta
+}
+
+// HelperEffect: the helper changes Ledger by Sign · (parameter #Param), on every success path.
+type HelperEffect struct {
+	Ledger string
+	Sign   int
+	Param  int
 }
 
 type Delta struct {
@@ -190,6 +201,9 @@ func ExtractDeltas(P *core.Program, spec *LedgerSpec, fn *ssa.Function) []Delta 
 				for i := range spec.Calls {
 					cl := &spec.Calls[i]
 					if !calleeMatches(P, x, cl.Callee) {
+						continue
+					}
+					if cl.Filter != nil && !cl.Filter(P, ff, x) {
 						continue
 					}
 					d := Delta{Ledger: cl.Ledger, Instr: in, Sign: cl.Sign, Desc: "call " + cl.Callee}
@@ -398,7 +412,49 @@ func CheckLedgers(P *core.Program, R *core.Report, spec *LedgerSpec) {
 		}
 		if why, ok := spec.Helpers[key]; ok {
 			usedHelpers[key] = true
-			R.Add(spec.Rule+"-helper", key, "declared helper", P.Pos(fn.Pos()), true, why+" — deltas: "+deltaList(deltas))
+			effs, declared := spec.HelperEffects[key]
+			if !declared {
+				R.Add(spec.Rule+"-helper", key, "declared helper", P.Pos(fn.Pos()), true, why+" — deltas: "+deltaList(deltas))
+				continue
+			}
+			// body must produce exactly the declared effect on every success path
+			ff := P.Facts(fn)
+			sums := map[string]core.Lin{}
+			bad := ""
+			for _, d := range deltas {
+				if d.Sign == 0 {
+					bad = "plain assignment " + d.String()
+					continue
+				}
+				if _, escapes := ff.SuccessExitReachableWithout(nil, func(in ssa.Instruction) bool { return in == d.Instr }); escapes {
+					bad = "delta " + d.String() + " is not on every success path"
+					continue
+				}
+				if sums[d.Ledger] == nil {
+					sums[d.Ledger] = core.Lin{}
+				}
+				sums[d.Ledger] = sums[d.Ledger].Plus(d.Amt, d.Sign)
+			}
+			for _, e := range effs {
+				want := core.Lin{}
+				if e.Param < len(fn.Params) {
+					want = core.Lin{fn.Params[e.Param].Name(): e.Sign}
+				}
+				got := sums[e.Ledger]
+				if got == nil {
+					got = core.Lin{}
+				}
+				if !got.Equal(want) {
+					bad = fmt.Sprintf("declared %s %+d·%s but body gives %s", e.Ledger, e.Sign, fn.Params[e.Param].Name(), got.String())
+				}
+				delete(sums, e.Ledger)
+			}
+			for l, rest := range sums {
+				if !rest.IsZero() {
+					bad = "undeclared effect on " + l + ": " + rest.String()
+				}
+			}
+			R.Add(spec.Rule+"-helper", key, "declared effect matches body", P.Pos(fn.Pos()), bad == "", why+" — deltas: "+deltaList(deltas)+". "+bad)
 			continue
 		}
 		ff := P.Facts(fn)
